@@ -127,26 +127,11 @@ def check_adders(run, rule_ret, rule_cons):
     run.floor(rule_ret, 8, "returns of the add_* overloads")
 
 
-def check(run):
+def check_write_clear_rearm(run, rule):
+    """write_block(): the buffered block is serialised, then cleared, then re-armed with the active parameters - all three
+    unconditionally (an empty block still has to take over a newly selected parameter set)."""
     facts = run.facts
-    # address events are aggregated in a map keyed by the event itself: the count of distinct events (and with it the
-    # moment the block is full) is right only if the key's equality and hash tell all distinct events apart
-    from . import C11
-    C11.check_hash_eq(run, "R12.7", only=["CDNS::AddressEventCount"], floor=4)
-    check_buffer_methods(run, "R12.1")
-    check_adders(run, "R12.2", "R12.5")
-    # R12.3
-    fu = facts.fn(BLK + "::full", rule="R12.3")
-    rets = [n for n in ir.walk(fu["body"]) if n.get("k") == "Return"]
-    got = cond(rets[0]["e"], Env(fu["body"])) if len(rets) == 1 else None
-    ok = got == full_formula()
-    run.ob("R12.3", "full:size>=max-over-3-containers", ok, fu, fu["line"],
-           "full() == (qr.size() >= max || aec.size() >= max || mm.size() >= max)" if ok else
-           "full() computes %s; the block must count as full exactly when one of the three item containers has reached max_block_items" % (show_f(got) if got else "?"))
-    run.floor("R12.3", 1, "full()")
-
-    # R12.4
-    wb = facts.fn(EXP + "::write_block", sig=[], rule="R12.4")
+    wb = facts.fn(EXP + "::write_block", sig=[], rule=rule)
     seq = []
     for st in ir.stmts(wb["body"]):
         for c in ir.calls_in(st):
@@ -174,13 +159,36 @@ def check(run):
     if cond_after:
         seq.append("conditional:%s" % cond_after[0][0])
     ok = seq == ["write", "clear", "rearm"] and not tries
-    run.ob("R12.4", "write_block():write-clear-rearm", ok, wb, wb["line"],
+    run.ob(rule, "write_block():write-clear-rearm", ok, wb, wb["line"],
            "the buffered block is serialised, then cleared, then re-armed; an exception from the write leaves it buffered" if ok else
            ("write_block() performs %s only when %s: after set_active_block_parameters() an empty buffered block keeps the old parameters (limit, hints, index)" % (
                cond_after[0][0], show_f(cond_after[0][1]))) if cond_after else
            "write_block() sequence is %s%s; the block must be cleared only after write_block(m_block) returned normally" % (seq, " inside a try block" if tries else ""))
     rets = [n for n in ir.walk(wb["body"]) if n.get("k") == "Return"]
-    run.floor("R12.4", 1, "write_block()")
+    run.floor(rule, 1, "write_block()")
+
+
+
+def check(run):
+    facts = run.facts
+    # address events are aggregated in a map keyed by the event itself: the count of distinct events (and with it the
+    # moment the block is full) is right only if the key's equality and hash tell all distinct events apart
+    from . import C11
+    C11.check_hash_eq(run, "R12.7", only=["CDNS::AddressEventCount"], floor=4)
+    check_buffer_methods(run, "R12.1")
+    check_adders(run, "R12.2", "R12.5")
+    # R12.3
+    fu = facts.fn(BLK + "::full", rule="R12.3")
+    rets = [n for n in ir.walk(fu["body"]) if n.get("k") == "Return"]
+    got = cond(rets[0]["e"], Env(fu["body"])) if len(rets) == 1 else None
+    ok = got == full_formula()
+    run.ob("R12.3", "full:size>=max-over-3-containers", ok, fu, fu["line"],
+           "full() == (qr.size() >= max || aec.size() >= max || mm.size() >= max)" if ok else
+           "full() computes %s; the block must count as full exactly when one of the three item containers has reached max_block_items" % (show_f(got) if got else "?"))
+    run.floor("R12.3", 1, "full()")
+
+    check_write_clear_rearm(run, "R12.4")
+    wb = facts.fn(EXP + "::write_block", sig=[], rule="R12.5")
 
     # R12.5 who may clear the buffered block
     callers = []
